@@ -112,7 +112,7 @@ def axioms_audit(module, thms, work):
     rc, out = sh(["lake", "env", "lean", f], cwd=LEAN, timeout=1200)
     res = {}
     cur = None
-    for m in re.finditer(r"'([^']+)' (depends on axioms: \[([^\]]*)\]|does not depend on any axioms)", out.replace("\n", " ")):
+    for m in re.finditer(r"'(\S+?)' (depends on axioms: \[([^\]]*)\]|does not depend on any axioms)", out.replace("\n", " ")):
         axs = [a.strip() for a in (m.group(3) or "").split(",") if a.strip()]
         res[m.group(1)] = axs
     return rc, out, res
